@@ -6,7 +6,7 @@ import "github.com/refraction-networking/uquic/internal/protocol"
 
 // VerifAckRanges builds an AckFrame from (Smallest, Largest) pairs and reports what the
 // unexported validateAckRanges says about it (RecvPH unit, property C07).
-func VerifValidateAckRanges(rs [][2]int64) bool {
+func VerifRPHValidateAckRanges(rs [][2]int64) bool {
 	f := &AckFrame{}
 	for _, r := range rs {
 		f.AckRanges = append(f.AckRanges, AckRange{Smallest: protocol.PacketNumber(r[0]), Largest: protocol.PacketNumber(r[1])})
